@@ -4,9 +4,12 @@
 proofs (Properties_C17.v)  +  correspondence: extracted model of KDTree::squaredDistanceLowerBound and
 IterativeNNQuery (run on the tree the real KDTree built, read back from the harness) vs the compiled
 C++; extracted model of the construction (C17Build.kd_build; its std::nth_element oracle answers with the
-arrangements recorded from the real std::nth_element calls) vs the real tree  +  spec monitor: well-
+arrangements recorded from the real std::nth_element calls) vs the real tree; the same for the projection trees
+(LCTree, KHCTree with linear / polynomial kernel): C17Proj bounds, funct and the C17Gen query in exact rational
+arithmetic on the real tree, C17ProjBuild construction with the anchors as coded and the recorded std::nth_element
+results; C17Vote (NearestNeighborModel) on the neighbour lists both back-ends returned  +  spec monitor: well-
 formedness of every real kd-tree, exhaustive search computed here, on kd / LC / kernel (KHC) trees, bucket sizes
-> 1, and NearestNeighborModel predictions with tree vs brute-force back-end.
+> 1, valid-k-nearest-neighbours and vote monitors for NearestNeighborModel with tree vs brute-force back-end.
 
 Streams and violation keys (stable; matched against known_findings.json):
   tree:split-threshold <kind>  default construction, the built tree stores a point on the wrong side of a
@@ -26,6 +29,10 @@ Streams and violation keys (stable; matched against known_findings.json):
   simpleNN:squared-distance    NearestNeighborModel(1/distance weights): brute-force back-end reports
                                squared distances, tree back-end distances (F5)
   nnmodel:tree-backend / simpleNN:prediction   other prediction mismatches
+  simpleNN:neighbours          SimpleNearestNeighbors::getNeighbors does not return k nearest neighbours
+  nnmodel:vote                 the prediction is not the (uniform / 1/distance) vote of the neighbours the back-end returned
+  nnmodel:backends-differ      the back-ends return different neighbours / predictions although there is no tie at the k-th distance
+  correspondence-projection / correspondence-vote   (no-failing-input) the extracted model and the C++ differ, monitors pass
 """
 import os, sys, re, math, random
 sys.path.insert(0, os.path.dirname(os.path.abspath(__file__)))
@@ -381,12 +388,15 @@ def main():
     ck.trusted = DEFAULT_TRUSTED + [
         "modelled not verified: boost::intrusive::rbtree (as a sorted list); std::nth_element (an oracle: the theorems hold for every result with the median property, the recorded real results are checked with median_okb); the two std::partition calls of partitionEqually (stable partitions in the model)",
         "the harness records the results of std::nth_element by redirecting the name for the Shark headers ('#define nth_element c17_nth_element', wrapper calls the real std::nth_element; no source change)",
-        "LC-tree and kernel (KHC) trees: exhaustive-search monitor only, no model",
-        "the harness reads m_cutDim and m_squaredRadius through '#define private public' (no source change)"]
+        "projection trees: the harness dumps m_normal / mep_positive / mep_negative / m_normalInvNorm / m_threshold as %.17g; the model evaluates them in exact rational arithmetic (Qc), the C++ in double: bounds, plane distances, keys, thresholds and normals are compared at relative 1e-12; the construction model takes sqrt from the driver (double sqrt of the exact value)",
+        "PolynomialKernel(2, 1): std::pow(base, 2) is taken to be base*base (exact on the integer / half-integer inputs of the run)",
+        "the harness reads m_cutDim, m_squaredRadius, m_normal, mep_positive/negative, m_normalInvNorm through '#define private public' / '#define protected public' (no source change)"]
     ck.assumptions = ["integer data coordinates, half-integer query coordinates: all squared distances and thresholds are exact in double (sqrt results are squared back and rounded)",
                       "query theorems: the tree is well-formed for the data (left <= threshold <= right on the cut coordinate, every leaf holds copies of one point, leaf index lists are non-empty) — proved for the construction model (C17_kd_build_wellformed) and checked on every real tree by the extracted wf_treeb and an independent monitor",
                       "construction theorems: non-empty data set, all points of one dimension, std::nth_element returns a rearrangement with the median property at position (size+1)/2, fewer than 2^32 points (depth limit), default TreeConstruction (bucket size 1); thresholds exact on doubled integer coordinates",
-                      "at most n calls of next() on a data set of n points"]
+                      "at most n calls of next() on a data set of n points",
+                      "projection-tree theorems: exact arithmetic of an ordered field; sqrt x * sqrt x = x for the squared anchor distances (construction only); the kernel satisfies KPos / KCS and is symmetric (proved for the linear and the degree-2 polynomial kernel); std::nth_element result with the median property; the anchor choice as coded is proved admissible",
+                      "NearestNeighborModel: exact arithmetic (the vote is order-independent); identical predictions of the two back-ends only without a tie at the k-th distance (with a tie: refuted, C17_vote_backend_tie_refuted)"]
     ck.proofs()
     model = extract_model(PID, "C17Extract.v", "c17_driver.ml")
     exe, err = cxx_build("c17_nn", [os.path.join(ROOT, "harness", "c17_nn.cpp")])
@@ -848,7 +858,9 @@ def main():
     ck.cov["distinct_nontrivial"] = len(set((c["kind"], c["bucket"], str(c["pts"]), l) for c in cases if len(c["pts"]) >= 3 for l in c["body"]))
     ck.cov["rule"] = ("data sets of 1..24 (60 thorough) integer points in dimension 1-4 (small ranges with duplicates, wide ranges, collinear, one repeated coordinate value, copies of few points); "
                       "queries in half units: inside, equal to data points, far outside (300..2000), exactly on / one half-unit next to the real splitting planes; every query asks for all n neighbours through "
-                      "IterativeNNQuery::next and k=1..n through TreeNearestNeighbors::getNeighbors; construction: the tree of every kd data set is rebuilt by the extracted kd_build from the recorded results of the real std::nth_element calls and compared node by node (see construction_model); non-trivial = at least 3 points; distinct = distinct (tree kind, data set, query)")
+                      "IterativeNNQuery::next and k=1..n through TreeNearestNeighbors::getNeighbors; construction: the tree of every kd data set is rebuilt by the extracted kd_build from the recorded results of the real std::nth_element calls and compared node by node (see construction_model); non-trivial = at least 3 points; distinct = distinct (tree kind, data set, query); "
+                      "projection trees (LC, KHC linear, KHC polynomial degree 2): the same point streams WITH duplicates, collinear points and points on the cutting hyper-surface, plus n = 1, 2, all points equal, 26..44 points (more than CuttingAccuracy: sampled cut direction, degenerate samples); queries also exactly on a real splitting hyper-surface (midpoint of the extreme left / right projections) and far outside; "
+                      "votes: k = 1..6, uniform / 1/distance weights, 1..4 classes (labels (5i+2) mod nc) and 2-d regression labels, queries on data points (zero distance) and midpoints of data points (ties at the k-th distance), every kind of tree, both back-ends")
     ck.cov["samples"] = [case_lines(c)[:3] for c in cases[:2]]
     ck.cov["traces_validated_against_impl"] = len(kd) - len([ci for ci in kd if ci in mon_failed_cases])
     ck.cov["disagreements_checked"] = len(dis) + len(mon_failed_cases)
@@ -863,7 +875,7 @@ def main():
     ck.notes["projection_tree_model"] = dict(pstat, note="trees = LC / KHC(linear) / KHC(polynomial) data sets whose real tree the extracted model reproduced; nodes_norm_gt_1 = inner nodes whose stored normal / m_normalInvNorm gives a squared norm above 1 by rounding (<= 1e-12): the Lipschitz hypothesis of the theorems holds for the exact construction model, for the rounded doubles only up to that error")
     ck.notes["real_trees_with_misplaced_points"] = sum(1 for (o, rc, e) in io if rc == 0 and o and impl_meta(o[0]) > 0)
     ck.notes["monitor_failures_by_key"] = {k: len(v) for k, v in failing.items()}
-    ck.finish(explanation="theorems quantify over all data sets, all results of std::nth_element with the median property, queries and k: the construction model yields a well-formed tree whose leaves partition the index set, and the query model returns the k nearest neighbours on every well-formed tree (end to end: C17_kd_build_then_query_correct); both models are tied to the C++ by correspondence runs (construction: recorded nth_element results as oracle, every node's cut dimension / threshold / index sets compared; query: every call of next()); LC/KHC trees, bucket sizes > 1 and NearestNeighborModel are monitored against exhaustive search only")
+    ck.finish(explanation="theorems quantify over all data sets, all results of std::nth_element with the median property, queries and k: the construction model yields a well-formed tree whose leaves partition the index set, and the query model returns the k nearest neighbours on every well-formed tree (end to end: C17_kd_build_then_query_correct); both models are tied to the C++ by correspondence runs (construction: recorded nth_element results as oracle, every node's cut dimension / threshold / index sets compared; query: every call of next()); projection trees (LC, KHC): cell bound, query and construction proved over any ordered field for every kernel with KPos/KCS (linear and degree-2 polynomial proved) and tied by correspondence on the real trees (exact rational arithmetic vs double, 1e-12); NearestNeighborModel: the vote as coded depends only on the multiset of (distance, label) pairs, both back-ends agree without a tie at the k-th distance, refuted with a tie (observed and reported on every run); bucket sizes > 1 are monitored only (known finding)")
 
 if __name__ == "__main__":
     main()
